@@ -95,6 +95,7 @@ def contexts(F, n):
         "arrsize": ("gdecl", "int va%d[%s];" % (n, F)),
         "range": ("gdecl", "int[0,%s] vr%d;" % (F, n)),
         "instarg": ("system", "P%d = TP(%s);" % (n, F)),
+        "instarg_ref": ("system", "PR%d = TPR(%s);" % (n, F)),
         "forall_body": ("assign", "b = forall (k : int[0,1]) %s == 1" % F),
         "exists_body": ("assign", "b = exists (k : int[0,1]) %s == 1" % F),
         "sum_body": ("assign", "i = sum (k : int[0,1]) %s" % F),
@@ -105,11 +106,12 @@ def contexts(F, n):
 
 
 TP = {"name": "TP", "params": "int pp", "locations": [{"id": "id0"}], "init": "id0"}
+TPR = {"name": "TPR", "params": "int &pr", "locations": [{"id": "id0"}], "init": "id0"}
 SIDE = "side-effect"
 
 
 def mk_placer():
-    return batch.Placer(BASE_DECL, extra_templates=[TP])
+    return batch.Placer(BASE_DECL, extra_templates=[TP, TPR])
 
 
 def run(tier):
@@ -120,7 +122,10 @@ def run(tier):
     c.add_tlc("Effects", mc, "invariants Sound, Precise on every family; families exported")
     if mc.violated:
         vf.log("Effects: %s violated at spec level; replay decides" % mc.violated)
-    fams = mc.emitted
+    fams = [e for e in mc.emitted if "fam" in e]
+    direct_cases = [d for e in mc.emitted if "direct" in e for d in e["direct"]]
+    if not direct_cases:
+        raise vf.MachineryError("Effects.tla exported no direct cases")
     if mc.coverage.get("DeclWrapper", (0, 0))[1] == 0:
         raise vf.MachineryError("vacuous Effects run")
     cases = []
@@ -132,7 +137,7 @@ def run(tier):
         cid = "c%d" % len(cases)
         cases.append({"id": cid, "role": role, "text": text, "pre": lines})
         info[cid] = {"fam": fam_rec, "ctx": ctx, "twin": twin, "decl": lines, "expr": text, "n": n}
-    all_ctx = list(contexts("F", 0))
+    all_ctx = [x for x in contexts("F", 0) if x != "instarg_ref"]       # a function call is not an lvalue: the reference context takes direct writes only
     # every family in the guard context; a sample of families in every context; write-free twins
     rep = [n for n, f in enumerate(fams) if len(f["fam"]) == 1 and f["fam"][0]["wf"] in ("assign", "postinc") and f["fam"][0]["sf"] in ("plain", "do_body", "iter_body", "local_init")]
     deep = [n for n, f in enumerate(fams) if len(f["fam"]) >= 2]
@@ -145,14 +150,16 @@ def run(tier):
                 add_case(n, fams[n], ctx, False)
             add_case(n, fams[n], ctx, True)
     # direct writes in contexts (no function)
-    direct = []
-    for ctx in all_ctx:
-        for wf, tmpl in WF.items():
-            for sh in ("scalar", "elem", "field"):
-                cid = "c%d" % len(cases)
-                role, text = contexts("(" + tmpl % TGT[("global", sh)] + ")", len(cases))[ctx]
-                cases.append({"id": cid, "role": role, "text": text})
-                info[cid] = {"fam": {"fam": [], "maywrite": True, "rejects": True}, "ctx": ctx, "twin": False, "decl": [], "expr": text, "n": -1}
+    for d in sorted(direct_cases, key=lambda d: (d["ctx"], d["wf"], d["shape"])):
+        cid = "c%d" % len(cases)
+        role, text = contexts("(" + WF[d["wf"]] % TGT[("global", d["shape"])] + ")", len(cases))[d["ctx"]]
+        cases.append({"id": cid, "role": role, "text": text})
+        info[cid] = {"fam": {"fam": [], "maywrite": True, "rejects": True}, "ctx": d["ctx"], "twin": False, "decl": [], "expr": text, "n": -1}
+    for sh in ("scalar", "elem", "field"):          # the write-free twins of the reference context: the bare lvalue
+        cid = "c%d" % len(cases)
+        role, text = contexts(TGT[("global", sh)], len(cases))["instarg_ref"]
+        cases.append({"id": cid, "role": role, "text": text})
+        info[cid] = {"fam": {"fam": [], "maywrite": False, "rejects": False}, "ctx": "instarg_ref", "twin": True, "decl": [], "expr": text, "n": -1}
     verdict = batch.run_placed(vf, cases, mk_placer, c.run_dir, per=40)
     nontrivial, drift = 0, 0
     for cs in cases:
